@@ -71,8 +71,21 @@ def ensure_custom(ns):
     C.add_commands([FwdtwoCommand, ExistsinCommand])
 
 
-def parse_outcome(ns, parser, text):
-    obs = seams.run_parse(text, parser=parser)
+def parse_outcome(ns, parser, text, via_file=False):
+    if via_file:
+        import os
+        import tempfile
+        fd, path = tempfile.mkstemp(prefix="verif_c13_", suffix=".sieve")
+        try:
+            with os.fdopen(fd, "w", encoding="utf-8", errors="surrogatepass") as f:
+                f.write(text)
+            obs = seams.run_parse(text, parser=parser, via_file=path)
+        finally:
+            os.unlink(path)
+        if isinstance(obs.error, str):
+            obs.error = obs.error.replace(path, "<file>")
+    else:
+        obs = seams.run_parse(text, parser=parser)
     ser = None
     if obs.verdict == "ACC":
         buf = io.StringIO()
@@ -208,6 +221,9 @@ def events():
     for which in ("P1", "P2", "PF"):
         for i in range(len(SCRIPTS)):
             ev.append(("parse", which, i))
+    # the shared parser also reads scripts through parse_file (same outcome as parse of the same text, nothing left behind)
+    for i in (0, 2, 4):
+        ev.append(("parsefile", "P1", i))
     for which in ("F1", "F2"):
         for i in range(len(FS_OPS)):
             ev.append(("fs", which, i))
@@ -218,6 +234,8 @@ def events():
 def ev_label(ev):
     if ev[0] == "parse":
         return "%s.parse(script%d)" % (ev[1], ev[2])
+    if ev[0] == "parsefile":
+        return "%s.parse_file(script%d)" % (ev[1], ev[2])
     if ev[2] == "fpr-P1":
         return "%s.from_parser_result(P1)" % ev[1]
     return "%s.%s" % (ev[1], FS_OPS[ev[2]][0])
@@ -242,11 +260,11 @@ def run_history(ns, hist, base_parse, base_fs):
                 return (k, "filters:" + what, "%s (P1 last parsed script%d) gives %r, in a pristine interpreter %r" % (
                     ev_label(ev), last_p1, _short(got), _short(want)))
             continue
-        if ev[0] == "parse":
+        if ev[0] in ("parse", "parsefile"):
             p = objs[ev[1]] if ev[1] != "PF" else ns.parser.Parser()
             if ev[1] == "P1":
                 last_p1 = ev[2]
-            got = parse_outcome(ns, p, SCRIPTS[ev[2]])
+            got = parse_outcome(ns, p, SCRIPTS[ev[2]], via_file=(ev[0] == "parsefile"))
             want = base_parse[ev[2]]
             if got != want:
                 what = "verdict/error" if got[:3] != want[:3] else ("tree" if got[3] != want[3] else "serialisation")
@@ -289,7 +307,7 @@ def hist_task(t):
             culprit = hist[k]
             prev = [e for e in hist[:k]]
             viols.append({"property": "C13", "engine": "factory",
-                          "signature": ["C13", ev_label(culprit).split(".", 1)[1] if culprit[0] == "fs" else "parse(script%d)" % culprit[2],
+                          "signature": ["C13", ev_label(culprit).split(".", 1)[1] if culprit[0] == "fs" else "%s(script%d)" % ("parse_file" if culprit[0] == "parsefile" else "parse", culprit[2]),
                                         "after:" + (ev_label(prev[-1]).split(".", 1)[1] if prev else "nothing"), clause],
                           "fs_alphabet": "v3",
                           "what": "history %s: %s" % (" ; ".join(ev_label(e) for e in hist[:k + 1]), text),
